@@ -129,3 +129,66 @@ def check_c20(prop, tier, seed):
                      "the machine-string pointer and the pointer given to maybenot_stop are valid (documented safety contract)",
                      "heap accounting through a counting global allocator in the driver process"],
         nontrivial_key="actions")
+
+
+def check_c12(prop, tier, seed):
+    t0 = time.time()
+    wd = vlib.workdir("%s-%s" % (prop, tier))
+    vlib.build_harness()
+    slices = ["frac", "vec1", "dist-quick"] if tier == "quick" else ["frac", "vec1", "vec2", "dist"]
+    states = trans = cases_total = recs_total = accepted = 0
+    bad_all = []
+    samples = []
+    for sl in slices:
+        cfg = vlib.tlc_cfg("Spec", {"Slice": '"%s"' % sl}, ["Emit", "Sane"])
+        mc = vlib.run_tlc("Validation", cfg, wd, "mc_" + sl, workers=8, timeout=1500)
+        if mc["error"] or mc["violated"] or mc["distinct"] == 0:
+            raise ToolError("Validation.tla failed on slice %s (%s): %s" % (sl, mc["violated"] or mc["error"], mc["out"]))
+        cases = os.path.join(wd, "cases_%s.ndjson" % sl)
+        n = 0
+        with open(cases, "w") as f:
+            for payload in vlib.tlc_strings(mc["out"], "CASE|"):
+                f.write(payload + "\n")
+                n += 1
+        recs = os.path.join(wd, "recs_%s.ndjson" % sl)
+        pr = vlib.run_bin("validate_cases", ["--cases", cases, "--out", recs], timeout=3000)
+        if pr.returncode != 0:
+            raise ToolError("validate_cases failed: %s" % pr.stdout[-2000:])
+        s = json.loads(pr.stdout.strip().splitlines()[-1])
+        cfg = vlib.tlc_cfg("TSpec", {"Slice": '"%s"' % sl})
+        tv = vlib.trace_validate("ValidationTrace", cfg, recs, wd, "tv_" + sl, shards=12)
+        if tv["incomplete"]:
+            raise ToolError("trace validation did not finish: %s" % tv["incomplete"])
+        bad = sorted({v["id"] for v in tv["verdicts"]})
+        log("[C12] slice %s: %d abstract cases enumerated by TLC, %d concretised machines, %d accepted by validation; groups with a rejected record: %s" % (
+            sl, n, s["records"], s["accepted"], bad[:5]))
+        states += mc["distinct"]
+        trans += mc["states"]
+        cases_total += n
+        recs_total += s["records"]
+        accepted += s["accepted"]
+        if bad:
+            import fwcheck
+            first = [ln for ln in fwcheck.scenario_lines(recs, bad[0]) if ln.get("k") == "case"]
+            bad_all.append(dict(slice=sl, group=bad[0], records=first[:600]))
+        with open(recs) as f:
+            for i, line in enumerate(f):
+                if i in (1, 50):
+                    r = json.loads(line)
+                    if r.get("k") == "case":
+                        samples.append({k: r[k] for k in ("case", "variant", "validate_ok", "fw_ok")})
+    # find the exact failing records for the replay file (re-judged in python only to pick which to show)
+    coverage = dict(states=states, transitions=trans, traces_validated_against_impl=recs_total,
+                    evaluations=recs_total, distinct_nontrivial=accepted,
+                    rule="abstract cases = the full product of each slice of Validation.tla (fractions x states, transition vectors, distribution tables x positions), each concretised with 3 bit-pattern variants; non-trivial = accepted by Machine::validate (the antecedent of the property)",
+                    samples=samples or ["(none)"], exhaustive=True, slices=slices, abstract_cases=cases_total)
+    vlib.write_evidence(prop, tier, seed, "model_checking", coverage, time.time() - t0, len(bad_all), [
+        "value classes stand for the listed bit patterns only (3 variants per class)",
+        "the documented parameter domains are those of maybenot dist.rs and rand_distr 0.4.3 constructors (DESIGN.md section 9)",
+        "per-event sums are judged exactly in units of 2^-24; subnormal probabilities count as 0 in the sum"])
+    if bad_all:
+        path = vlib.write_replay(prop, dict(property=prop, failing=bad_all[0]))
+        print("VIOLATION property=%s replay=%s" % (prop, path), flush=True)
+        return 1
+    log("[C12] held on everything explored (%.1fs)" % (time.time() - t0))
+    return 0
